@@ -73,7 +73,9 @@ pub enum AvailableValue {
     #[serde(rename = "omr")]
     MemoryAtOriginalRegister(Register, i32), // Actual bit of memory + offset (ex. lw ___), where we are sure it is the same as the original
     /// The value inside of a CSR register.
-    #[serde(rename = "c")]
+    // The tag must differ from the one of `Constant`: a dumped CSR value
+    // would otherwise be read back as a constant.
+    #[serde(rename = "vc")]
     ValueInCsr(CsrImm),
     /// Value at memory location of value in CSR register.
     #[serde(rename = "mc")]
